@@ -95,7 +95,7 @@ EXC_NAMES = {'KeyError', 'TypeError', 'ValueError', 'IndexError', 'AttributeErro
 
 def exc_name(e):
     n = type(e).__name__
-    if n == 'Boom':
+    if n in ('Boom', 'Halt'):
         return 'user:%d' % e.args[0]
     return n if n in EXC_NAMES else 'Other'
 
